@@ -11,7 +11,7 @@
    time order: t is not in the past and not after a scheduled wake-up.
    The composition with the task executor (coq/Timer/Model.v) is validated by the
    correspondence check, not proved: C05 is `partial` in that sense (DESIGN.md section 10). *)
-From Coq Require Import List NArith.
+From Coq Require Import List NArith Permutation.
 From DesVerif Require Import Timer.Driver Timer.QueueLemmas Timer.Inv Timer.Exact Timer.Futures Timer.FutureLaws Timer.Model Timer.Compose
   Timer.Frag Timer.E2EInv Timer.E2ELoop Timer.E2EInit Timer.Fresh.
 Import ListNotations.
@@ -19,10 +19,12 @@ Open Scope N_scope.
 
 (* proves  Forall (fun tk => Forall frag_step .. /\ Forall (< TMAX) (expected tk)) (decode <concrete script>)  *)
 Ltac init_ok_by_computation :=
-  match goal with |- Forall _ ?e => let v := eval vm_compute in e in change e with v end;
-  repeat (apply Forall_cons || apply Forall_nil || split);
-  try (match goal with |- Forall _ ?e => let v := eval vm_compute in e in change e with v end; repeat constructor);
-  try exact I; try reflexivity.
+  match goal with |- Forall _ ?e => let v := eval vm_compute in e in replace e with v by (vm_compute; reflexivity) end;
+  repeat (apply Forall_cons || apply Forall_nil);
+  (split;
+   [repeat (apply Forall_cons || apply Forall_nil || split); try exact I; try reflexivity
+   |match goal with |- Forall _ ?e => let v := eval vm_compute in e in replace e with v by (vm_compute; reflexivity) end;
+    repeat constructor]).
 
 (* Inv_wake (with the bookkeeping facts that make it inductive: slots sorted, live slots in
    the future, next_wakeup is a scheduled wake-up) is preserved by every event, whatever the
